@@ -56,6 +56,135 @@ def bounds(tier):
     }
 
 
+# ---- the public API of span, enumerated from the header ---------------------------------------------------------------
+# Every public member of class span and every non-member function of its namespace is listed here with what the check does
+# with it.  run() parses the header of the tree under test (public_api) and compares: a public name that is not in these
+# tables is reported as a note, counted in unclassified_public_api and caps the run (the enumeration of entry points is then
+# not known to be complete); an accessor of the tables that has disappeared is a note.
+MEMBERS = {
+    "span": "constructors: every form is a request (ctor(...), copy, conversions, default)",
+    "~span": "trivial", "operator=": "request 'copy assignment'",
+    "first": "sub-view request", "last": "sub-view request", "subspan": "sub-view request",
+    "size": "observer, compared on every view", "size_bytes": "observer, compared on every view", "empty": "observer, compared on every view",
+    "operator[]": "element access: in range by address, out of range rejected (checked)",
+    "operator()": "element access: in range by address, out of range rejected (checked)",
+    "at": "element access: in range by address, out of range throws (both builds)",
+    "front": "element access: by address; rejected on empty views (checked)", "back": "element access: by address; rejected on empty views (checked)",
+    "data": "element access: data()[i] by address, data()+size() == end()",
+    "begin": "iterator: begin()[i], *(begin()+i), forward walk, writes", "end": "iterator: delimits the range",
+    "cbegin": "iterator: cbegin()[i]", "cend": "iterator: delimits the range",
+    "rbegin": "iterator: rbegin()[size-1-i], reverse walk, writes", "rend": "iterator: delimits the range",
+    "crbegin": "iterator: crbegin()[size-1-i], const reverse walk", "crend": "iterator: delimits the range",
+}
+NONMEMBERS = {
+    "get": "element access: get<N>(view) for N in {-1, 0..nmax+2, PTRDIFF_MAX}: in range by address, out of range rejected (checked)",
+    "make_span": "constructor requests make_span(...)", "first": "non-member sub-view request", "last": "non-member sub-view request", "subspan": "non-member sub-view request",
+    "span": "deduction guides (C++17): not judged",
+    "contract_violation": "the rejection mechanism itself",
+    "as_bytes": "not in the statement: not judged", "as_writable_bytes": "not in the statement: not judged",
+    "operator==": "not in the statement: not judged", "operator!=": "not in the statement: not judged", "operator<": "not in the statement: not judged",
+    "operator<=": "not in the statement: not judged", "operator>": "not in the statement: not judged", "operator>=": "not in the statement: not judged",
+}
+ACCESSORS = ["operator[]", "operator()", "at", "front", "back", "data", "begin", "end", "cbegin", "cend", "rbegin", "rend", "crbegin", "crend"]
+
+_NOT_NAMES = {"decltype", "static_cast", "sizeof", "noexcept", "static_assert", "alignas", "reinterpret_cast", "const_cast", "if", "while", "for", "return", "defined", "declval"}
+_NAME = re.compile(r"(operator\s*(?:\(\s*\)|\[\s*\]|[^\s\w(]+)|~?[A-Za-z_]\w*)\s*\((?!\s*[&*])")
+
+
+def public_api(text):
+    """(names of the members of class span declared in a public section, names of the non-member functions of the span
+    namespace outside detail) from the header text: comments, strings and preprocessor lines removed (both branches of every
+    #if are kept), function bodies skipped, one chunk per declaration, the first identifier followed by '(' is the name"""
+    text = re.sub(r"/\*.*?\*/", " ", text, flags=re.S)
+    text = re.sub(r"//[^\n]*", " ", text)
+    text = re.sub(r'"(?:\\.|[^"\\])*"', '""', text)
+    text = re.sub(r"(?m)^[ \t]*#(?:[^\n\\]|\\\n|\\.)*", " ", text)
+    members, free = [], []
+    stack = []          # kinds of the open braces: ns:<name>, class-span
+    state = {"access": "private"}
+
+    def kind_now():
+        return stack[-1] if stack else "top"
+
+    def where_now():
+        if kind_now() == "class-span":
+            return "class"
+        if stack and all(k.startswith("ns:") for k in stack) and "ns:detail" not in stack and "ns:std" not in stack:
+            return "ns"
+        return None
+
+    def flush(decl, where):
+        names = [re.sub(r"\s+", "", m) for m in _NAME.findall(" ".join(decl.split()))]
+        names = [x for x in names if x not in _NOT_NAMES and not re.fullmatch(r"[A-Z][A-Z0-9_]*", x)]
+        if not names:
+            return
+        if where == "class" and state["access"] == "public":
+            members.append(names[0])
+        elif where == "ns":
+            free.append(names[0])
+    chunk = ""
+    i, n = 0, len(text)
+    while i < n:
+        c = text[i]
+        if c == "{":
+            head = " ".join(chunk.split())
+            if re.match(r"(inline\s+)?namespace\b", head):
+                nm = head.split()[-1] if len(head.split()) > 1 else ""
+                stack.append("ns:" + ("tcb" if nm == "TCB_SPAN_NAMESPACE_NAME" else nm))
+            elif re.search(r"\bclass span$", head) and kind_now().startswith("ns:"):
+                stack.append("class-span")
+                state["access"] = "private"
+            else:
+                # a body (function, nested type, braced initialiser): the chunk before it is the declaration
+                depth, j = 1, i + 1
+                while j < n and depth:
+                    depth += text[j] == "{"
+                    depth -= text[j] == "}"
+                    j += 1
+                w = where_now()
+                if w and not re.match(r"(template\s*<.*>\s*)?(struct|class|union|enum)\b", head):
+                    flush(head, w)
+                i = j
+                chunk = ""
+                continue
+            chunk = ""
+        elif c == "}":
+            if stack:
+                stack.pop()
+            chunk = ""
+        elif c == ";":
+            w = where_now()
+            if w:
+                flush(chunk, w)
+            chunk = ""
+        elif c == ":" and kind_now() == "class-span" and re.fullmatch(r"\s*(public|private|protected)\s*", chunk):
+            state["access"] = chunk.strip()
+            chunk = ""
+        else:
+            chunk += c
+        i += 1
+    return members, free
+
+
+def classify_api(ctx):
+    """compares the public API found in the header under test with MEMBERS / NONMEMBERS"""
+    path = os.path.join(vlib.INCLUDE, "xtl", "xspan_impl.hpp")
+    members, free = public_api(open(path).read())
+    if "operator[]" not in members or "subspan" not in members:
+        raise vlib.HarnessError("cannot find the public members of class span in %s (found %s)" % (path, sorted(set(members))))
+    unknown = sorted(set(m for m in members if m not in MEMBERS)) + sorted(set("non-member " + f for f in free if f not in NONMEMBERS))
+    gone = [a for a in ACCESSORS if a not in members] + (["non-member get"] if "get" not in free else [])
+    ctx.stats["public_members_of_span_in_header"] = len(set(members))
+    ctx.stats["nonmember_functions_in_header"] = len(set(free))
+    ctx.stats["unclassified_public_api"] = len(unknown)
+    ctx.note("public members of span found in the header: %s; non-member functions: %s" % (sorted(set(members)), sorted(set(free))))
+    if unknown:
+        ctx.note("PUBLIC API NOT COVERED BY THE CHECK (not in MEMBERS/NONMEMBERS of checks/C16/check.py; if it is an element-access or sub-view entry point it is NOT enumerated): %s" % unknown)
+        ctx.cap("the header declares public entry points the check does not know: %s" % unknown)
+    if gone:
+        ctx.note("accessors the check enumerates are no longer declared in the header: %s" % gone)
+
+
 # ---- the manifest of template-argument instantiations ---------------------------------------------------------------
 def result_extent(pe, op, o, c):
     """extent of the returned span type as the header declares it today (only used to predict well-formedness:
@@ -337,10 +466,10 @@ def tag_of(mode, part, build):
     return "c16-%s-p%d-%s-%s%s-%s" % (mode, part, build[0].replace("+", "x"), build[1].replace("+", "x"), build[2], build[3])
 
 
-def build_one(gendir, mode, part, build):
+def build_one(gendir, mode, part, build, nmax):
     cc, std, opt = build[:3]
     return vlib.compile_cxx(SRC, "c16-%s-p%d" % (mode, part), std=std, opt=opt, san="asan", compiler=cc,
-                            flags=["-I" + gendir], defines=[MODES[mode], "C16_PART=%d" % part, "_GLIBCXX_ASSERTIONS"])
+                            flags=["-I" + gendir], defines=[MODES[mode], "C16_PART=%d" % part, "C16_GETMAX=%d" % (nmax + 2), "_GLIBCXX_ASSERTIONS"])
 
 
 _PREP = {}
@@ -356,7 +485,7 @@ def build_with_fallback(pe, mode, part, build):
     Returns (binary, [ill-formed entries], {entry: first compiler error line})."""
     gendir, _, newly, _, bb = pe
     try:
-        return build_one(gendir, mode, part, build), [], {}
+        return build_one(gendir, mode, part, build, bb["nmax"]), [], {}
     except vlib.HarnessError as e:
         first_failure = e
     cc, std = build[0], build[1]
@@ -375,7 +504,7 @@ def build_with_fallback(pe, mode, part, build):
         with _FALLBACK_LOCK:
             _FALLBACK[key] = cached
     gendir2, bad, errs = cached
-    return build_one(gendir2, mode, part, build), bad, errs
+    return build_one(gendir2, mode, part, build, bb["nmax"]), bad, errs
 
 
 def report_ill_formed(ctx, bad, errs, mode, part, build, nmax):
@@ -426,6 +555,7 @@ def prepare(tier, builds):
 
 def run(ctx):
     b = bounds(ctx.tier)
+    classify_api(ctx)
     prep = prepare(ctx.tier, b["builds"])
     gendir0, counts, _, n_probes, _ = prep[(b["builds"][0][3], b["builds"][0][0])]
     newly = [(k, x) for k in sorted(prep) for x in prep[k][2]]
